@@ -1,7 +1,7 @@
 import StoneVerif.Lemmas.FeCompileEq
 set_option linter.unusedSimpArgs false
 /-!
-Acyclicity of what pass 3 of the compile model builds.
+Acyclicity of what pass 3 of the compileCore model builds.
 
 * parents: the table of populated types is topologically ordered -- a type is entered after its parent (`Topo`), which
   is what the depth-first population with the visiting set `_resolution_in_progress` guarantees;
@@ -515,11 +515,11 @@ theorem assemble_mem {E st en} : ∀ {L : List (String × List CRoute)} {outs}, 
           · exact assemble_mem houts o ho
 
 /-- the tables behind a compiled Api -/
-theorem compile_tables {rx fs api} (h : compile rx fs = .ok api) :
+theorem compile_tables {rx fs api} (h : compileCore rx fs = .ok api) :
     ∃ st : St, Topo st.done ∧ Acyc st.aliases ∧
       (∀ k c, api.type? k = some c → st.done.lookup k = some c) ∧
       (∀ k t, api.alias? k = some t → st.aliases.lookup k = some t) := by
-  unfold compile at h
+  unfold compileCore at h
   split at h
   · cases h
   · rename_i E _
@@ -567,7 +567,7 @@ theorem compile_tables {rx fs api} (h : compile rx fs = .ok api) :
                   rw [hn] at this
                   exact this
 
-theorem compile_acyclic {rx fs api} (h : compile rx fs = .ok api) :
+theorem compile_acyclic {rx fs api} (h : compileCore rx fs = .ok api) :
     (∀ k, ¬ Path api.parentEdge k k) ∧ (∀ k, ¬ Path api.aliasEdge k k) := by
   obtain ⟨st, ht, hA, htype, halias⟩ := compile_tables h
   refine ⟨fun k p => ht.acyclic k (path_mono ?_ p), fun k p => hA k (path_mono ?_ p)⟩
